@@ -327,7 +327,7 @@ func programs(thorough bool) []Spec {
 	for _, f1 := range []string{"", "return1", "append1", "return2"} {
 		// the dependent pair is cheap (the tasks are serialised): one preemption more than the rest
 		ps = append(ps, Spec{Tasks: []TaskSpec{fail(t("a"), f1), t("b", "a")}, Bound: b + 1})
-		ps = append(ps, Spec{Tasks: []TaskSpec{fail(t("a"), f1), t("b")}, Bound: b})
+		ps = append(ps, Spec{Tasks: []TaskSpec{fail(t("a"), f1), t("b")}, Bound: b, Split: thorough})
 	}
 	y := t("a")
 	y.Yield = 1
@@ -348,7 +348,7 @@ func programs(thorough bool) []Spec {
 			if parallel {
 				bb = 0
 			}
-			ps = append(ps, Spec{Tasks: []TaskSpec{fail(t("a", sh[0]...), ff[0]), fail(t("b", sh[1]...), ff[1]), fail(t("c", sh[2]...), ff[2])}, Bound: bb})
+			ps = append(ps, Spec{Tasks: []TaskSpec{fail(t("a", sh[0]...), ff[0]), fail(t("b", sh[1]...), ff[1]), fail(t("c", sh[2]...), ff[2])}, Bound: bb, Split: thorough && parallel})
 		}
 	}
 	// wait lists that are not acyclic / name tasks that do not exist yet: refused, and everything
